@@ -1867,14 +1867,54 @@ pub fn gen_history(rng: &mut Rng, shape: &Shape) -> History {
                 let mut pgoff = page * rng.below(5).min(addr / page);
                 let mut exec = rng.chance(5, 6);
                 let mut path = if rng.chance(1, 12) { String::new() } else { rng.pick(&PATHS).to_string() };
+                // special paths (`//anon`, `[heap]`, `[stack]`, `[vvar]`): the record is ignored by the converter.
+                // Over the range of a live library (mostly) or anywhere. In recordings whose attribution is
+                // judged (C02) only once the candidate finding is recorded.
+                if rng.chance(1, 10) && (!shape.mappings || finding_enabled(FINDING_SPECIAL)) {
+                    path = rng.pick(&SPECIAL_PATHS).to_string();
+                    exec = rng.chance(5, 6);
+                    if let Some(m) = sim.maps.get(&pid).filter(|m| !m.is_empty()) {
+                        if rng.chance(3, 4) {
+                            let (s0, e0) = m[rng.below(m.len() as u64) as usize];
+                            match rng.below(3) {
+                                0 => {
+                                    addr = s0;
+                                    len = e0 - s0;
+                                }
+                                1 => {
+                                    addr = s0 + page * rng.below(((e0 - s0) / page).max(1));
+                                    len = page;
+                                }
+                                _ => {
+                                    addr = s0.saturating_sub(page).max(page);
+                                    len = e0 - addr + page;
+                                }
+                            }
+                            pgoff = 0;
+                        }
+                    }
+                    h.recs.push(Rec::Mmap2 { pid, tid, addr, len, pgoff, exec, path, t });
+                    // the generator keeps aiming addresses at the library that is (by the code) still there
+                    if violate {
+                        sim.live.entry(pid).or_default();
+                    }
+                    continue;
+                }
                 if !shape.files.is_empty() && rng.chance(1, 2) {
-                    // a file present on disk: map its executable segment exactly / a superset / a page of it
+                    // a file present on disk: map its executable segment exactly / a superset / a page of it /
+                    // a range that starts one page before the segment in the file (the `file_offset >` branch of
+                    // compute_vma_bias_impl) / a range no segment relates to (compute_base_avma = None: ignored)
                     let f = &shape.files[rng.below(shape.files.len() as u64) as usize];
-                    let (_svma, off, size) = f.segs[f.exec_seg];
+                    let (svma, off, size) = f.segs[f.exec_seg];
                     let size_pages = size.div_ceil(page) * page;
-                    let (o, l) = match rng.below(3) {
-                        0 => (off, size_pages),
-                        1 => (off, size_pages + page),
+                    // (a mapping that starts before the image base - the first mapped byte would have a stated
+                    // address below `relative_address_base` - underflows `mapping_start_avma - base_avma`: the
+                    // fixed family `mapping-before-image-base` of C02, candidate finding C02-mmap-arith-panic)
+                    let (o, l) = match rng.below(8) {
+                        0 | 1 => (off, size_pages),
+                        2 | 3 => (off, size_pages + page),
+                        4 if off >= page && svma >= f.base_svma + page => (off - page, size_pages + 2 * page),
+                        5 if rng.chance(1, 2) => (off + size_pages + 16 * page, page),
                         _ => (off + page * rng.below(size_pages / page), page),
                     };
                     pgoff = o;
@@ -2060,6 +2100,13 @@ pub fn finding_enabled(id: &str) -> bool {
 }
 
 pub const FINDING_PHANTOM: &str = "C17-phantom-process-on-thread-exit";
+pub const FINDING_SPECIAL: &str = "C02-special-path-not-evicting";
+pub const FINDING_BACKDATED: &str = "C02-backdated-record";
+pub const FINDING_MMAP_ARITH: &str = "C02-mmap-arith-panic";
+
+/// paths for which `DsoKey::detect` returns `None`: `handle_mmap2` ignores the record (`[vdso]` is not among
+/// them and is never generated: it would be resolved through the vdso of the samply process itself)
+pub const SPECIAL_PATHS: [&str; 4] = ["//anon", "[heap]", "[stack]", "[vvar]"];
 
 /// Final pass over a generated history with the exact lifecycle tracker (the reference time is known only
 /// now): the non-violating stream keeps only records inside the judged grammar (`Life.stepOk`); records
